@@ -88,10 +88,10 @@ OPS = {
     'diagonalize': lambda a, i, j: ev.diagonalize(a, _ax(a, i), _ax2(a, j)),
     'ravel': lambda a, axis: ev.ravel(a, _ax(a, axis)) if a.ndim >= 2 and _ax(a, axis) < a.ndim - 1 else _ill(),
     'unravel': lambda a, axis, n1, n2: ev.unravel(a, _ax(a, axis), (C(n1), C(n2))) if _len(a, _ax(a, axis)) == n1 * n2 else _ill(),
-    'take': lambda a, idx, axis: ev.take(a, idx, _ax(a, axis)) if idx.ndim == 1 else (ev.get(a, _ax(a, axis), ev.InRange(idx, a.shape[_ax(a, axis)])) if idx.ndim == 0 and idx.dtype == int else _ill()),
+    'take': lambda a, idx, axis: ev.take(a, _inrange_idx(idx, a, axis), _ax(a, axis)) if idx.ndim == 1 else (ev.get(a, _ax(a, axis), ev.InRange(idx, a.shape[_ax(a, axis)])) if idx.ndim == 0 and idx.dtype == int else _ill()),
     'get': lambda a, axis, item: ev.get(a, _ax(a, axis), C(item)) if -_len(a, _ax(a, axis)) <= item < _len(a, _ax(a, axis)) else _ill(),
     'inflate': lambda a, idx, n, axis: ev._inflate(a, idx, C(n), _ax(a, axis)) if tuple(_shape(a)[_ax(a, axis):_ax(a, axis) + idx.ndim]) == _shape(idx) else _ill(),
-    'taken': lambda a, idx, axis: ev._take(a, idx, _ax(a, axis)),   # index block of any dimension
+    'taken': lambda a, idx, axis: ev._take(a, _inrange_idx(idx, a, axis), _ax(a, axis)),   # index block of any dimension
     'det': lambda a: ev.determinant(a) if a.ndim >= 2 else _ill(), 'inv': lambda a: ev.inverse(a) if a.ndim >= 2 else _ill(),
     'guard': lambda a: ev.Guard(a),
     'legendre': lambda a, d: ev.Legendre(a, d),
@@ -121,6 +121,12 @@ OPS = {
 }
 
 def _ill(): raise IllTyped
+def _inrange_idx(idx, a, axis):
+    '''constant index vectors must lie inside the axis (an out-of-range constant index is an ill-typed program, not an input on which the original is defined)'''
+    if isinstance(idx, ev.Constant):
+        n = _len(a, _ax(a, axis)); v = numpy.asarray(idx.value)
+        if v.size and (v.min() < -n or v.max() >= n): raise IllTyped
+    return idx
 def _len(a, i):
     n = a.shape[i]
     return int(n.value) if isinstance(n, ev.Constant) else int(n)
